@@ -1313,10 +1313,13 @@ class ContactHandler(Messenger, dbus.service.Object):
 
             self._modulate_tx_seg_size(delta_b, delta_t)
 
-        item = self._tx_map[transfer_id]
+        item = self._tx_map.get(transfer_id)
+        if item is None:
+            # Not a transfer of this entity
+            raise RejectError(messages.RejectMsg.Reason.UNEXPECTED)
         item.ack_length = length
         if flags & messages.TransferSegment.Flag.END:
-            if not self._do_send_ack_final:
+            if not self._do_send_ack_final or item not in self._tx_pend_ack:
                 raise RejectError(messages.RejectMsg.Reason.UNEXPECTED)
 
             self.send_bundle_finished(str(item.transfer_id), length, 'success')
